@@ -467,6 +467,11 @@ impl Pase {
         if self.comm_window.is_some() {
             self.comm_window.clear();
 
+            // A PASE handshake in progress was started against this window (its verifier
+            // went into the SPAKE2+ context at PASEPake1): it must not complete against
+            // whatever window is opened next, possibly for another passcode
+            self.session_timeout = None;
+
             notify_mdns();
             notify_adm_comm_window_attrs_changed(&mut notify_change);
 
